@@ -16,7 +16,7 @@ def CHECKS():        # the two built-in checks at run time
     return [CK.unit_is_unique_check_row(), CK.unit_check_resets(), CK.unit_distinct_count()]
 
 def FIELD_VALUES():  # validated_value of the built-in types
-    return [FT.unit_integer_validated_value(), FT.unit_decimal_validated_value(), FT.unit_choice_constant_text(), FT.unit_datetime_regex_pattern(), R.unit_decimal_range_validate()]
+    return [FT.unit_integer_validated_value(), FT.unit_decimal_validated_value(), FT.unit_decimal_separators(), FT.unit_choice_constant_text(), FT.unit_datetime_regex_pattern(), R.unit_decimal_range_validate()]
 
 def FIELD_DECLS():   # constructors of the built-in types and what they parse
     return [FT.unit_choice_init(), FT.unit_constant_init(), FT.unit_integer_init(), FT.unit_datetime_init(), FT.unit_decimal_init(), FT.unit_text_init(), F.unit_set_example(),
